@@ -6,6 +6,7 @@ import gen_core as G
 import core_cmp as C
 
 LIBS = ['lib1', 'lib2']
+DEFERRED = ['mapped', 'made', 'picked', 'indexed']   # library arrays of deferred callback applications
 UNMODELLED = ['objectRemoveKey', 'mergePatch', 'prune', 'objectValues', 'mapWithKey']
 
 
@@ -38,6 +39,17 @@ def gen_lib(rng, gen):
                                   ('call', ('field', ('self',), 'deep'), [('p', ('binary', 'mul', V('i'), N(rng.choice([5, 30, 70]))))], False)))
     members.append(('fix', 'mapped', False, 'h', None, ('std', 'map', [cb, ('array', [N(0), N(1), N(2), N(3)])])))
     members.append(('fix', 'made', False, 'h', None, ('std', 'makeArray', [N(4), cb])))
+    # the same through the other callback builtins: deferred map function behind an eager filter, index / key callbacks,
+    # folds whose callback fails at some element or depth (their frames are pushed per element / per level)
+    four = ('array', [N(0), N(1), N(2), N(3)])
+    members.append(('fix', 'picked', False, 'h', None, ('std', 'filterMap', [('func', [('i', None)], ('binary', 'ge', V('i'), N(rng.randrange(0, 2)))), cb, four])))
+    members.append(('fix', 'indexed', False, 'h', None, ('std', 'mapWithIndex', [('func', [('j', None), ('i', None)], cb[2]), four])))
+    members.append(('fix', 'keyed', False, 'h', None, ('std', 'mapWithKey', [('func', [('j', None), ('i', None)], cb[2]),
+                                                                          ('object', [('fix', 'k%d' % i, False, 'd', None, N(i)) for i in range(4)])])))
+    members.append(('fix', 'folded', False, 'h', None, ('std', rng.choice(['foldl', 'foldr']),
+                                                        [('func', [('a', None), ('i', None)], ('binary', 'add', ('binary', 'mul', V('a'), N(0)), cb[2])),
+                                                         ('array', [N(rng.randrange(0, 4)) for _ in range(rng.randrange(0, 3))]), N(0)])))
+    members.append(('fix', 'kept', False, 'h', None, ('std', 'filter', [('func', [('i', None)], ('binary', 'ge', cb[2], N(0))), four])))
     # asserts inherited from a super layer; the extension breaks them
     members.append(('fix', 'base', False, 'h', None, ('object', [('assert', ('binary', 'gt', ('field', ('self',), 'x'), N(0)), ('str', 'base assertion')),
                                                                  ('fix', 'x', False, 'd', None, N(1))])))
@@ -60,11 +72,11 @@ def gen_source(rng, gen):
     if k < 0.24:
         which = rng.random()
         if which < 0.3:
-            return ('index', ('field', l, rng.choice(['mapped', 'made'])), N(rng.randrange(0, 4)))
+            return ('index', ('field', l, rng.choice(DEFERRED)), N(rng.randrange(0, 4)))
         if which < 0.45:
-            return ('field', l, rng.choice(['mapped', 'made']))
+            return ('field', l, rng.choice(DEFERRED + ['keyed', 'folded', 'kept']))
         if which < 0.5:
-            return ('std', 'length', [('field', l, rng.choice(['mapped', 'made']))])
+            return ('std', 'length', [('field', l, rng.choice(DEFERRED + ['keyed', 'kept']))])
         if which < 0.6:
             return ('field', ('field', l, rng.choice(['bad', 'bad2', 'base'])), 'x')
         if which < 0.72:
